@@ -65,6 +65,8 @@ const struct bufferevent_ops bufferevent_ops_filter = { "filter-not-linked", 0, 
 #define TRIGGER_RW        27   /* bufferevent_trigger(EV_READ|EV_WRITE, 0) */
 #define DISABLE_W         28
 #define WEV_WRITE_ALL     30   /* write event; everything queued is accepted */
+#define SET_WM_HIGH4      31   /* bufferevent_setwatermark(EV_READ, 0, 4) */
+#define APP_DRAIN         32   /* the application consumes everything buffered in the input (also as in-callback action) */
 #define ENABLE_W          29
 
 #ifndef C19_SEQ
@@ -124,6 +126,7 @@ static void app_hook(int who, int kind, short what)
 		if (C19_IN_CB_ACT == FREE) { g_freed_in_cb = 1; app_free(); }
 		else if (C19_IN_CB_ACT == SETCB_NULL) app_clear();
 		else if (C19_IN_CB_ACT == DISABLE_R) bufferevent_disable(u_bev[B], EV_READ);
+		else if (C19_IN_CB_ACT == APP_DRAIN) evbuffer_drain(u_bev[B]->input, evbuffer_get_length(u_bev[B]->input));
 	}
 }
 
@@ -210,6 +213,8 @@ static void do_op(int op)
 		bufferevent_connect_getaddrinfo_cb(EVUTIL_EAI_CANCEL, NULL, b);
 		g_connect_started = 0;
 		break;
+	case SET_WM_HIGH4: if (!u_dead[B]) bufferevent_setwatermark(b, EV_READ, 0, 4); break;
+	case APP_DRAIN: if (!u_dead[B]) evbuffer_drain(b->input, evbuffer_get_length(b->input)); break;
 	case TRIGGER_RW: if (!u_dead[B]) bufferevent_trigger(b, EV_READ | EV_WRITE, 0); break;
 	default: break;
 	}
